@@ -1,1 +1,3 @@
 pub mod c04_c05;
+pub mod c13;
+pub mod c14;
